@@ -195,6 +195,27 @@ impl<W: 'static, R: 'static, T: 'static> XSequence<W, R, T> {
         )
     }
 
+    /// the elements from index `start` on; the elements before it are not evaluated (skipping them after
+    /// evaluating would also drop whatever violation they end in)
+    pub(super) fn iter_from<'a>(
+        &'a self,
+        start: usize,
+        ns: &'a RuntimeScope<W, R, T>,
+        rt: RTCell<W, R, T>,
+    ) -> impl Iterator<Item = XResult<Rc<ManagedXValue<W, R, T>>, W, R, T>> + 'a {
+        let end = self.len();
+        match self {
+            XSequence::Array(arr) => {
+                Either::Left(arr.iter().skip(start).cloned().map(|i| Ok(Ok(i))))
+            }
+            _ => Either::Right(
+                (start..)
+                    .take_while(move |idx| end.map_or(true, |end| *idx < end))
+                    .map(move |idx| self.get(idx, ns, rt.clone())),
+            ),
+        }
+    }
+
     pub(crate) fn slice(
         base: &Rc<ManagedXValue<W, R, T>>,
         start: usize,
@@ -816,7 +837,7 @@ pub(crate) fn add_sequence_insert<W, R, T>(
                 .take(idx)
                 .collect::<Result<Result<Vec<_>, _>, _>>()?);
             ret.push(a2);
-            xraise!(ret.try_extend(seq0.iter(ns, rt.clone()).skip(idx))?);
+            xraise!(ret.try_extend(seq0.iter_from(idx, ns, rt.clone()))?);
             Ok(manage_native!(XSequence::array(ret), rt))
         }),
     )
@@ -846,7 +867,7 @@ pub(crate) fn add_sequence_pop<W, R, T>(
                 .iter(ns, rt.clone())
                 .take(idx)
                 .collect::<Result<Result<Vec<_>, _>, _>>()?);
-            xraise!(ret.try_extend(seq0.iter(ns, rt.clone()).skip(idx + 1))?);
+            xraise!(ret.try_extend(seq0.iter_from(idx + 1, ns, rt.clone()))?);
             Ok(manage_native!(XSequence::array(ret), rt))
         }),
     )
@@ -875,7 +896,7 @@ pub(crate) fn add_sequence_set<W, R, T>(
                 .take(idx)
                 .collect::<Result<Result<Vec<_>, _>, _>>()?);
             ret.push(a2);
-            xraise!(ret.try_extend(seq0.iter(ns, rt.clone()).skip(idx + 1),)?);
+            xraise!(ret.try_extend(seq0.iter_from(idx + 1, ns, rt.clone()),)?);
             Ok(manage_native!(XSequence::array(ret), rt))
         }),
     )
@@ -912,9 +933,11 @@ pub(crate) fn add_sequence_swap<W, R, T>(
                 .take(idx1)
                 .collect::<Result<Result<Vec<_>, _>, _>>()?);
             ret.push(xraise!(seq0.get(idx2, ns, rt.clone())?));
-            xraise!(ret.try_extend(seq0.iter(ns, rt.clone()).take(idx2).skip(idx1 + 1))?);
+            xraise!(ret.try_extend(seq0
+                .iter_from(idx1 + 1, ns, rt.clone())
+                .take(idx2.saturating_sub(idx1 + 1)))?);
             ret.push(xraise!(seq0.get(idx1, ns, rt.clone())?));
-            xraise!(ret.try_extend(seq0.iter(ns, rt.clone()).skip(idx2 + 1))?);
+            xraise!(ret.try_extend(seq0.iter_from(idx2 + 1, ns, rt.clone()))?);
             Ok(manage_native!(XSequence::array(ret), rt))
         }),
     )
@@ -1917,8 +1940,14 @@ pub(crate) fn add_sequence_dyn_cmp<W, R, T>(
                                 }
                             }
                         };
-                        let arr0 = seq0.iter(ns, rt.clone());
-                        let arr1 = seq1.iter(ns, rt.clone());
+                        // only the common prefix is compared: an element beyond it is not evaluated
+                        let common = match (seq0.len(), seq1.len()) {
+                            (Some(l0), Some(l1)) => l0.min(l1),
+                            (Some(l), None) | (None, Some(l)) => l,
+                            (None, None) => usize::MAX,
+                        };
+                        let arr0 = seq0.iter(ns, rt.clone()).take(common);
+                        let arr1 = seq1.iter(ns, rt.clone()).take(common);
                         let inner_func = to_primitive!(inner_value, Function);
 
                         for ((x, y), search) in search(arr0.zip(arr1), rt.clone()) {
